@@ -113,3 +113,118 @@ mod vx_kani {
         }
     }
 }
+
+#[cfg(kani)]
+mod vx_kani_multi {
+    //! Kani harnesses (overlay copy only) for the hash pre-images of functions that hash more than once (C05: parent hash binds both
+    //! children's values AND labels; C06: the value commitment frames value and nonce with their lengths). The configuration's `hash`
+    //! is replaced by a recording stub that stores every input and returns a digest that identifies the call.
+    use super::*;
+
+    const CAP: usize = 72;
+    const MAXC: usize = 3;
+    static mut REC: [[u8; CAP]; MAXC] = [[0u8; CAP]; MAXC];
+    static mut LEN: [usize; MAXC] = [0; MAXC];
+    static mut CALLS: usize = 0;
+
+    fn rec_hash(item: &[u8]) -> crate::hash::Digest {
+        unsafe {
+            let c = CALLS;
+            CALLS += 1;
+            if c < MAXC {
+                LEN[c] = item.len();
+                let mut i = 0;
+                while i < CAP {
+                    if i < item.len() {
+                        REC[c][i] = item[i];
+                    }
+                    i += 1;
+                }
+            }
+            [0xA0 + c as u8; 32]
+        }
+    }
+    fn be64(v: u64, k: usize) -> u8 {
+        (v >> (56 - 8 * k)) as u8
+    }
+
+    /// BOUNDED (child label byte strings of 2 bytes; values, labels full-domain): the parent hash commits to
+    /// left value, left label, right value and right label, each at a fixed position
+    #[kani::proof]
+    #[kani::unwind(74)]
+    #[kani::stub(<WhatsAppV1Configuration as Configuration>::hash, rec_hash)]
+    fn c05_parent_hash_encoding_whatsapp_v1() {
+        let lv: [u8; 32] = kani::any();
+        let rv: [u8; 32] = kani::any();
+        let ll: [u8; 2] = kani::any();
+        let rl: [u8; 2] = kani::any();
+        let _ = <WhatsAppV1Configuration as Configuration>::compute_parent_hash_from_children(&AzksValue(lv), &ll, &AzksValue(rv), &rl);
+        let k: usize = kani::any();
+        kani::assume(k < 32);
+        unsafe {
+            assert!(CALLS == 3);
+            assert!(LEN[0] == 34 && LEN[1] == 34 && LEN[2] == 64);
+            assert!(REC[0][k] == lv[k] && REC[1][k] == rv[k]);
+            if k < 2 {
+                assert!(REC[0][32 + k] == ll[k] && REC[1][32 + k] == rl[k]);
+            }
+            assert!(REC[2][k] == 0xA0 && REC[2][32 + k] == 0xA1);
+        }
+    }
+
+    /// BOUNDED (|value| = 2, |nonce| = 3; bytes and epoch full-domain): the client-side leaf hash is
+    /// hash( hash( be64(|value|) || value || be64(|nonce|) || nonce ) || be64(epoch) )
+    #[kani::proof]
+    #[kani::unwind(74)]
+    #[kani::stub(<WhatsAppV1Configuration as Configuration>::hash, rec_hash)]
+    fn c06_value_commitment_encoding_whatsapp_v1() {
+        let vb: [u8; 2] = kani::any();
+        let nb: [u8; 3] = kani::any();
+        let epoch: u64 = kani::any();
+        let _ = <WhatsAppV1Configuration as Configuration>::hash_leaf_with_value(&AkdValue(vb.to_vec()), epoch, &nb);
+        let k: usize = kani::any();
+        kani::assume(k < 32);
+        unsafe {
+            assert!(CALLS == 2);
+            assert!(LEN[0] == 8 + 2 + 8 + 3);
+            if k < 8 {
+                assert!(REC[0][k] == be64(2, k));
+                assert!(REC[0][10 + k] == be64(3, k));
+                assert!(REC[1][32 + k] == be64(epoch, k));
+            }
+            if k < 2 {
+                assert!(REC[0][8 + k] == vb[k]);
+            }
+            if k < 3 {
+                assert!(REC[0][18 + k] == nb[k]);
+            }
+            assert!(LEN[1] == 40);
+            assert!(REC[1][k] == 0xA0);
+        }
+    }
+
+    /// BOUNDED (|key| = 2, |value| = 1): the server-side value commitment is hash( be64(|value|) || value || be64(32) || nonce )
+    /// with nonce = the digest of the commitment-nonce pre-image (checked by c18_commitment_nonce_encoding)
+    #[kani::proof]
+    #[kani::unwind(74)]
+    #[kani::stub(<WhatsAppV1Configuration as Configuration>::hash, rec_hash)]
+    fn c06_fresh_value_encoding_whatsapp_v1() {
+        let kb: [u8; 2] = kani::any();
+        let vb: [u8; 1] = kani::any();
+        let label = NodeLabel { label_val: kani::any(), label_len: kani::any() };
+        let version: u64 = kani::any();
+        let _ = <WhatsAppV1Configuration as Configuration>::compute_fresh_azks_value(&kb, &label, version, &AkdValue(vb.to_vec()));
+        let k: usize = kani::any();
+        kani::assume(k < 32);
+        unsafe {
+            assert!(CALLS == 2);
+            assert!(LEN[1] == 8 + 1 + 8 + 32);
+            if k < 8 {
+                assert!(REC[1][k] == be64(1, k));
+                assert!(REC[1][9 + k] == be64(32, k));
+            }
+            assert!(REC[1][8] == vb[0]);
+            assert!(REC[1][17 + k] == 0xA0);
+        }
+    }
+}
